@@ -1086,7 +1086,7 @@ func (fr *Frame) makeSlice(st *State, x *ssa.MakeSlice) Val {
 	ln := fr.idxTerm(fr.val(x.Len), x.Len.Type())
 	cp := fr.idxTerm(fr.val(x.Cap), x.Cap.Type())
 	// make panics on negative or too large sizes
-	limit := ex.ilit(1 << 47)
+	limit := ex.ilit(1 << 50)
 	fr.mustHold(st, "makeslice", and(ex.ile(ex.izero(), ln), ex.ile(ln, cp), ex.ile(cp, limit)), x.Pos())
 	ref := ex.newObj(st)
 	et := x.Type().Underlying().(*types.Slice).Elem()
